@@ -9,6 +9,7 @@
 #include <bxdecay0/event_reader.h>
 #include <bxdecay0/particle.h>
 #include "pool.hpp"
+#include <algorithm>
 #include <cmath>
 #include <cstdio>
 #include <cstring>
@@ -108,10 +109,24 @@ static void round_trip(const std::string & dir, Result & R, bool thorough)
   for (int n : {0, 2, 3})
     for (int s = 0; s < NV * NV * NV; s += (thorough ? 1 : 7))
       for (int lab = 0; lab < 3; lab++) evs.push_back(mk(n, s, lab, TIMES[s % NT]));
-  std::string fn = dir + "/roundtrip.d0t";
+  for (int variant = 0; variant < 2; variant++) {
+  // variant 0: the stream is prepared as bxdecay0-run prepares it (precision 15); variant 1: a stream left at its
+  // defaults, so that the 15 digits must come from event::store itself (alternating zero-particle records first)
+  std::string fn = dir + "/roundtrip" + std::to_string(variant) + ".d0t";
   {
     std::ofstream out(fn);
-    out.precision(15);
+    if (variant == 0) out.precision(15);
+    if (variant == 1) {
+      // zero-particle records with many-digit event times come first: nothing but event::store can set the precision
+      std::vector<event> head;
+      for (int t = 0; t < NT; t++) {
+        event e;
+        e.set_generator(LABELS[t % 3]);
+        e.set_time(TIMES[t] * 1.000000123456789);
+        head.push_back(e);
+      }
+      evs.insert(evs.begin(), head.begin(), head.end());
+    }
     for (size_t k = 0; k < evs.size(); k++) write_record(out, (int)k, evs[k]);
   }
   event_reader::config_type cfg;
@@ -141,6 +156,7 @@ static void round_trip(const std::string & dir, Result & R, bool thorough)
     if (k != evs.size()) R.V("roundtrip:count", "reader delivers " + std::to_string(k) + " of " + std::to_string(evs.size()) + " written events");
   } catch (std::exception & e) {
     R.V("roundtrip:exception", std::string("reading back the written file threw after ") + std::to_string(R.roundtrip_events) + " events: " + e.what());
+  }
   }
 }
 
@@ -193,10 +209,10 @@ static void window_model(const std::string & dir, int nmax, Result & R)
           std::vector<int> expected;
           for (int k = start; k < N && (max == 0 || k < start + max); k++) expected.push_back(k);
           R.states++;
-          // call patterns: number of has_next calls before each load, in {1,2,3}; 3 calls after exhaustion
+          // call patterns: number of has_next calls before each load, in {0,1,2,3}; 3 calls after exhaustion
           int nl = (int)expected.size();
           long npat = 1;
-          for (int k = 0; k < nl; k++) npat *= 3;
+          for (int k = 0; k < nl; k++) npat *= 4;
           for (long pat = 0; pat < npat; pat++) {
             std::string where = "N=" + std::to_string(N) + " files=" + stag + " start=" + std::to_string(start) + " max=" + std::to_string(max);
             std::string key = "window:N" + std::to_string(N) + ":files" + stag + ":start" + std::to_string(start) + ":max" + std::to_string(max);
@@ -212,8 +228,8 @@ static void window_model(const std::string & dir, int nmax, Result & R)
               bool bad = false;
               std::string trace;
               for (int k = 0; k <= nl && !bad; k++) {
-                int nh = (k < nl) ? (int)(p % 3) + 1 : 3;
-                p /= 3;
+                int nh = (k < nl) ? (int)(p % 4) : 3; // 0 = load without asking first (the model says an event is due)
+                p /= 4;
                 bool expect_h = (k < nl);
                 for (int h = 0; h < nh && !bad; h++) {
                   bool got = rd.has_next_event();
